@@ -109,7 +109,7 @@ NAMED_WEIGHTED = NAMED + ["VmapMixture", "VmapMixture", "StudentT", "Multivariat
 def _named_spec(r, lo, hi, names=NAMED_WEIGHTED):
     name = r.choice(list(names))
     dim = r.choice([0, 1, 2, 3]) if name not in ("MultivariateNormal",) else r.choice([1, 2, 3])
-    if name == "VmapMixture":
+    if name in ("VmapMixture", "MixShiftedLogNormal"):
         dim = r.choice([0, 2])
     return {"kind": "named", "name": name, "dim": dim, "lo": lo, "hi": hi}
 
@@ -230,7 +230,8 @@ def _bucket(prop, tier, seed, idx):
         elif u < 0.9:
             spec = _direct_spec(r, ["vspline", "vspline", "chain", "chain", "planar", "affine", "scan_vspline"])
         else:
-            spec = _named_spec(r, 1e-2, 1e2, names=["Normal", "StudentT", "Cauchy", "Laplace", "Logistic", "Gumbel", "MultivariateNormal", "VmapMixture"])
+            spec = _named_spec(r, 1e-2, 1e2, names=["Normal", "StudentT", "Cauchy", "Laplace", "Logistic", "Gumbel", "MultivariateNormal", "VmapMixture",
+                                                    "MixShiftedLogNormal", "MixShiftedLogNormal", "LogNormal", "Exponential"])
         freeze = []
     if prop == "C18":
         loop, loss = "data", "mle"
@@ -290,10 +291,13 @@ def world_for(prop, tier, seed, idx):
         w["faults"] = []
         if r.random() < 0.35:  # perturbed parameters: one early teleport of modest size
             w["faults"] = [{"step": r.choice([0, 1, 2]), "kind": "opt_teleport", "seed": r.randrange(2**30), "scale": r.choice([0.5, 2.0])}]
+        if r.random() < 0.45 and b["model"]["kind"] != "named":
+            # parameters perturbed at initialisation; exact-knot fault rows are resolved against the perturbed model
+            w["init_perturb"] = {"seed": r.randrange(2**31), "scale": r.choice([0.5, 2.0, 5.0])}
         w["max_epochs"] = r.choice([1, 2, 2, 3])
         w["data"]["fault_rows"] = _fault_rows(r, w)
-        if r.random() < 0.3:
-            w["data"]["source"] = "normal"
+        if r.random() < 0.3 or b["model"].get("name") in ("MixShiftedLogNormal", "LogNormal", "Exponential"):
+            w["data"]["source"] = "normal"  # rows on both sides of the support boundaries
             w["data"]["scale"] = r.choice([0.5, 1.0, 3.0])
     return w
 
@@ -323,7 +327,13 @@ def _fault_rows(r, w):
     n = w["data"]["n"]
     dim = w["model"].get("dim", 1) or 1
     rel = _relevant_symbols(w["model"])
-    for _ in range(r.choice([1, 1, 2, 3, 4])):
+    n_rows = r.choice([1, 1, 2, 3, 4])
+    knotty = w["model"]["kind"] in ("vspline", "scan_vspline") or any("VSpline" in it[0] for it in w["model"].get("items", []))
+    if knotty and w.get("init_perturb") and r.random() < 0.7:
+        # many exact-knot rows against a perturbed spline: rounding in the inverse's quadratic is a rare event per knot
+        n_rows = r.choice([4, 6, 8])
+        rel = ["knot", "yknot", "knot", "yknot", "hi", "lo"] + rel[:4]
+    for _ in range(n_rows):
         coords = sorted(r.sample(range(dim), r.choice([1, 1, dim])))
         syms = [r.choice(rel) if (rel and r.random() < 0.7) else r.choice(SYMBOLS) for _ in coords]
         rows.append({"pos": r.randrange(n), "coords": coords, "symbols": syms, "knot_index": r.randrange(8)})
@@ -372,6 +382,10 @@ def shrink_candidates(w):
     fz = w.get("freeze", [])
     for i in range(len(fz)):
         yield mod(freeze=fz[:i] + fz[i + 1 :])
+    if w.get("init_perturb"):
+        c = copy.deepcopy(w)
+        del c["init_perturb"]
+        yield c
     if w["loop"] == "vi":
         if w["steps"] > 1:
             yield mod(steps=w["steps"] - 1)
